@@ -13,6 +13,7 @@ mod out;
 mod pci;
 mod scen_blk;
 mod scen_cfg;
+mod scen_console;
 mod scen_layout;
 mod scen_life;
 mod scen_mmio;
@@ -121,6 +122,7 @@ fn main() {
         "mmio" => family_mmio(&args),
         "cfg" => family_cfg(&args),
         "pci" => family_pci(&args),
+        "console" => family_generic(&args, "console", |a| scen_console::all_params(a.tier == "thorough", a.seed), |v| scen_console::ConParams::from_json(v), |p| p.to_json(), |p, sc| scen_console::run(p, sc)),
         "blk" => family_generic(&args, "blk", |a| scen_blk::all_params(a.tier == "thorough", a.seed), |v| scen_blk::BlkParams::from_json(v), |p| p.to_json(), |p, sc| scen_blk::run(p, sc)),
         f => {
             eprintln!("unknown family {f}");
